@@ -182,18 +182,53 @@ func intBoundaries(quick bool) []intBoundary {
 	return b
 }
 
+type intParams struct {
+	around, smallK int   // offsets -around..+around (0..+smallK for the smallK boundaries)
+	padN           []int // this many leading zeros
+	padTo          []int // leading zeros up to this many digits (when the number is shorter)
+}
+
+func intParamsOf(quick bool) intParams {
+	if quick {
+		return intParams{around: 3, smallK: 12, padN: []int{0, 1, 2}, padTo: []int{20, 21}}
+	}
+	return intParams{around: 16, smallK: 40, padN: []int{0, 1, 2, 3}, padTo: []int{10, 19, 20, 21, 22, 40}}
+}
+
+func showInts(a []int) string {
+	out := make([]string, len(a))
+	for i, n := range a {
+		out[i] = strconv.Itoa(n)
+	}
+	return strings.Join(out, "/")
+}
+
+func intRuleBoundaries(quick bool) string {
+	var out []string
+	for _, b := range intBoundaries(quick) {
+		if b.smallK {
+			out = append(out, b.name+"*")
+		} else {
+			out = append(out, b.name)
+		}
+	}
+	return strings.Join(out, ", ")
+}
+
+func intRuleContexts() string {
+	var out []string
+	for _, c := range intContexts {
+		out = append(out, "`"+c.tpl+"`")
+	}
+	return strings.Join(out, ", ")
+}
+
 // intTokens enumerates the token family: boundary + offset, with sign and
 // leading-zero variants; every distinct text once, in a fixed order.
 func intTokens(quick bool, f func(t intToken, origin string) bool) {
-	around, smallK := 3, 12
+	ip := intParamsOf(quick)
+	around, smallK, padTo, padN := ip.around, ip.smallK, ip.padTo, ip.padN
 	signs := []string{"", "-", "+"}
-	padTo := []int{20, 21} // leading zeros up to this many digits (when shorter)
-	padN := []int{0, 1, 2}
-	if !quick {
-		around, smallK = 16, 40
-		padTo = []int{10, 19, 20, 21, 22, 40}
-		padN = []int{0, 1, 2, 3}
-	}
 	seen := map[string]bool{}
 	for _, b := range intBoundaries(quick) {
 		hi := around
@@ -222,7 +257,11 @@ func intTokens(quick bool, f func(t intToken, origin string) bool) {
 						continue
 					}
 					seen[text] = true
-					if !f(newIntToken(text), fmt.Sprintf("%s%+d", b.name, off)) {
+					origin := fmt.Sprintf("%s%+d", b.name, off)
+					if sg != "" {
+						origin = sg + "(" + origin + ")"
+					}
+					if !f(newIntToken(text), origin) {
 						return
 					}
 				}
